@@ -173,6 +173,22 @@ Proof.
   eexists. eexists. split; [vm_compute; reflexivity|]. split; vm_compute; [reflexivity | discriminate].
 Qed.
 
+(* the hypotheses of C19_within_tol_radians are satisfiable together (thr = 1e-9
+   half turns, tol = 4e-9 rad, D = 256, the 4-step run above) *)
+Example C19_radians_nonvacuous :
+  pow2 (8 - D_FIELD) <= (1 # 1000000000) /\ (1 # 1000000000) * PI_HI <= (4 # 1000000000) /\
+  0 <= PI_LO /\ PI_LO <= PI_HI /\
+  exists raw rf out, steps (1 # 1000000000) REST_03 raw rf /\ post D_FIELD raw = Some out /\ List.length out = 4%nat.
+Proof.
+  split; [vm_compute; discriminate|]. split; [vm_compute; discriminate|].
+  split; [vm_compute; discriminate|]. split; [vm_compute; discriminate|].
+  destruct (expand sel_exact FUEL (1 # 1000000000) REST_03) as [raw rf| |] eqn:R;
+    [| vm_compute in R; discriminate R | vm_compute in R; discriminate R].
+  exists raw, rf. pose proof (expand_sound _ _ _ _ _ _ R) as Hs.
+  vm_compute in R. injection R as R1 R2. subst raw rf.
+  eexists. split; [exact Hs|]. split; vm_compute; reflexivity.
+Qed.
+
 Print Assumptions C19_run_correct.
 Print Assumptions C19_encodable_within_thr.
 Print Assumptions C19_length.
